@@ -194,7 +194,7 @@ theorem key_slices (a b p q x z : List Nat) (ha : a.length = 16) (hb : b.length 
 
 /-! ## generator model -/
 
-theorem enumFrom_map_snd (i : Nat) (l : List String) :
+theorem enumFrom_map_snd (i : Nat) (l : List Name) :
     (enumFrom i l).map (·.2) = (List.range l.length).map (· + i) := by
   induction l generalizing i with
   | nil => rfl
@@ -206,7 +206,7 @@ theorem enumFrom_map_snd (i : Nat) (l : List String) :
     simp only [Function.comp]
     omega
 
-theorem enumFrom_getElem? (i : Nat) (l : List String) (k : Nat) :
+theorem enumFrom_getElem? (i : Nat) (l : List Name) (k : Nat) :
     (enumFrom i l)[k]? = (l[k]?).map (fun n => (n, i + k)) := by
   induction l generalizing i k with
   | nil => simp [enumFrom]
